@@ -123,11 +123,13 @@ class cli_options_by_flag_and_file:
 class e2e_bitmaps:
     bounded_only = True
     gen = X.gen_bitmap_set
-    native_call = X.build_any
+    native_call = X.build_bitmaps
     n_quick = 30
     n_thorough = 400
-    # bitmaps or metric combinations the format cannot represent are rejected with an error
-    may_raise = ("ValueError", "AssertionError")
+    # bitmaps or metric combinations the format cannot represent are rejected with an error --
+    # and ONLY those: build_bitmaps lets an exception count as a rejection when
+    # bitmap_rejection_is_legitimate says the set is not representable, any other exception
+    # is a failure of this contract
     ensures = {
-        "image-bytes-ppem-and-placement": lambda glyphs, overrides, result: X.bitmap_problems(glyphs, overrides, result) == [],
+        "image-bytes-ppem-and-placement": lambda glyphs, overrides, result: "rejected" in result or X.bitmap_problems(glyphs, overrides, result) == [],
     }
